@@ -198,6 +198,20 @@ def make_jobs(ctx, focus: str):
     return jobs
 
 
+def config_corner(j) -> str:
+    """which corner of the configuration space a job sits in: the algorithm parameters it moves away from the documented values (names only) and whether the
+    population is below the documented scale.  Part of the key of a NaN finding, so that a listed finding in one corner (Ficks Law with DD at its upper end) does not
+    cover a new one elsewhere (Ficks Law with the documented configuration)"""
+    cfg = j.get("cfg", {})
+    moved = sorted(k for k in cfg if k not in ("max_cycles", "population_size", "fitness_error", "early_stopping"))
+    try:
+        tiny = cfg.get("population_size") is not None and cfg["population_size"] < search.fixture_scale(j["opt"])["population_size"]
+    except Exception:
+        tiny = False
+    parts = moved + (["tiny-population"] if tiny else [])
+    return (":" + "+".join(parts)) if parts else ""
+
+
 def decide(ctx, obs_list, what: set[str]):
     """apply the C01 / C02 / C05 oracles to observations; returns counters"""
     stats = {"runs": 0, "completed": 0, "agents": 0, "calls": 0, "crashed": 0}
@@ -250,7 +264,7 @@ def decide(ctx, obs_list, what: set[str]):
                     continue
                 pr = membership_problems(vspecs, x)
                 if pr:
-                    ctx.violation(f"calls-{pr[0]}:{j['opt']}", f"{j['opt']}: objective_function called with {x!r}: {pr[1]}", {"kind": "job", "job": j})
+                    ctx.violation(f"calls-{pr[0]}:{j['opt']}{config_corner(j)}", f"{j['opt']}: objective_function called with {x!r}: {pr[1]}", {"kind": "job", "job": j})
                     break
     return stats
 
